@@ -115,7 +115,67 @@ def c01_wedge_gen(rng, tier):
             b"\xc0\x0c" + struct.pack(">HHIH", 1, 1, 60, 4) + bytes([10, 0, 0, 1])
         out.append("w%d cfg=%s l=%s mode=%s bad=%s q=%s up=reply:%s" % (
             i, cfg, l, rng.choice(["frame", "frame", "raw"]), gens.hx(bad[:60000]), gens.hx(q), gens.hx(reply)))
+    # malformed / unusual HTTP on the DoH listeners (the HTTP layer is part of "malformed input on any listener")
+    for j, raw in enumerate(http_raw_catalogue(rng)):
+        for l in ("http-post", "fasthttp-post"):
+            i = n + 2 * j + (l == "fasthttp-post")
+            name = gens.raw_name([b"okh%d" % i, b"test"])
+            q = struct.pack(">HHHHHH", rng.randrange(65536), 0x0100, 1, 0, 0, 0) + name + b"\0" + struct.pack(">HH", 1, 1)
+            reply = struct.pack(">HHHHHH", 0, 0x8180, 1, 1, 0, 0) + name + b"\0" + struct.pack(">HH", 1, 1) + \
+                b"\xc0\x0c" + struct.pack(">HHIH", 1, 1, 60, 4) + bytes([10, 0, 0, 1])
+            out.append("wh%d cfg=%s l=%s mode=httpraw bad=%s q=%s up=reply:%s" % (i, cfg, l, gens.hx(raw), gens.hx(q), gens.hx(reply)))
     return out
+
+
+def http_raw_catalogue(rng):
+    """raw HTTP/1.x requests a DoH listener must survive: missing / lying / absurd framing headers, wrong methods and
+    paths, bad base64, oversized lines, binary garbage, pipelined and truncated requests"""
+    import base64
+    msg = b"\x12\x34\x01\x00\x00\x01\x00\x00\x00\x00\x00\x00\x01a\x00\x00\x01\x00\x01"
+    ct = b"Content-Type: application/dns-message\r\n"
+    host = b"Host: x\r\n"
+    b64 = base64.urlsafe_b64encode(msg).rstrip(b"=")
+    cat = [
+        b"POST /dns-query HTTP/1.1\r\n" + host + ct + b"\r\n",                                   # no Content-Length at all
+        b"POST /dns-query HTTP/1.1\r\n" + host + ct + b"\r\n" + msg,                             # ... with stray body octets
+        b"POST /dns-query HTTP/1.0\r\n" + host + ct + b"\r\n" + msg,                             # HTTP/1.0, body until close
+        b"POST /dns-query HTTP/1.1\r\n" + host + ct + b"Content-Length: 0\r\n\r\n",
+        b"POST /dns-query HTTP/1.1\r\n" + host + ct + b"Content-Length: 5\r\n\r\n" + msg,      # shorter than the body
+        b"POST /dns-query HTTP/1.1\r\n" + host + ct + b"Content-Length: 500\r\n\r\n" + msg,    # longer than the body
+        b"POST /dns-query HTTP/1.1\r\n" + host + ct + b"Content-Length: 99999999999\r\n\r\n" + msg,
+        b"POST /dns-query HTTP/1.1\r\n" + host + ct + b"Content-Length: -1\r\n\r\n" + msg,
+        b"POST /dns-query HTTP/1.1\r\n" + host + ct + b"Content-Length: abc\r\n\r\n" + msg,
+        b"POST /dns-query HTTP/1.1\r\n" + host + ct + b"Transfer-Encoding: chunked\r\n\r\n%x\r\n" % len(msg) + msg + b"\r\n0\r\n\r\n",
+        b"POST /dns-query HTTP/1.1\r\n" + host + ct + b"Transfer-Encoding: chunked\r\n\r\nzz\r\n" + msg,
+        b"POST /dns-query HTTP/1.1\r\n" + host + ct + b"Transfer-Encoding: chunked\r\n\r\nffffffffffffffff\r\n" + msg,
+        b"POST /dns-query HTTP/1.1\r\n" + host + ct + b"Transfer-Encoding: chunked\r\nContent-Length: 3\r\n\r\n0\r\n\r\n",
+        b"POST /dns-query HTTP/1.1\r\n" + host + ct + b"Expect: 100-continue\r\nContent-Length: %d\r\n\r\n" % len(msg),
+        b"POST /dns-query HTTP/1.1\r\n" + host + b"Content-Length: %d\r\n\r\n" % len(msg) + msg,   # no Content-Type
+        b"GET /dns-query HTTP/1.1\r\n" + host + b"\r\n",                                        # no dns parameter
+        b"GET /dns-query?dns= HTTP/1.1\r\n" + host + b"\r\n",
+        b"GET /dns-query?dns=%%%% HTTP/1.1\r\n" + host + b"\r\n",
+        b"GET /dns-query?dns=" + b64 + b"&dns=" + b64 + b" HTTP/1.1\r\n" + host + b"\r\n",
+        b"GET /dns-query?dns=" + b"A" * 70000 + b" HTTP/1.1\r\n" + host + b"\r\n",
+        b"GET /dns-query?dns=" + b64 + b" HTTP/1.1\r\n" + host + b"Content-Length: 10\r\n\r\n",  # GET announcing a body
+        b"GET /other?dns=" + b64 + b" HTTP/1.1\r\n" + host + b"\r\n",
+        b"GET " + b"/" * 9000 + b" HTTP/1.1\r\n" + host + b"\r\n",
+        b"HEAD /dns-query?dns=" + b64 + b" HTTP/1.1\r\n" + host + b"\r\n",
+        b"PUT /dns-query HTTP/1.1\r\n" + host + ct + b"Content-Length: %d\r\n\r\n" % len(msg) + msg,
+        b"OPTIONS * HTTP/1.1\r\n" + host + b"\r\n",
+        b"CONNECT x:1 HTTP/1.1\r\n" + host + b"\r\n",
+        b"PRI * HTTP/2.0\r\n\r\nSM\r\n\r\n",                                                # HTTP/2 preface on a cleartext port
+        b"POST /dns-query HTTP/1.1\r\n" + host + ct + b"X-Big: " + b"h" * 70000 + b"\r\n\r\n",
+        b"POST /dns-query HTTP/1.1\r\n" + host * 400 + b"\r\n",
+        b"POST /dns-query HTTP/1.1\r\n" + host + ct + b"Content-Length: %d\r\n\r\n" % len(msg) + msg +
+        b"POST /dns-query HTTP/1.1\r\n" + host + ct + b"\r\n",                                  # pipelined: good, then no length
+        b"POST /dns-query HTTP/1.1\r\n" + host + ct + b"Content-Length: 70000\r\n\r\n" + b"\0" * 70000,
+        b"POST /dns-query HTTP/1.1\r\nHost: x\r\nContent-Type: application/dns-message",          # cut inside the headers
+        b"\x16\x03\x01\x02\x00\x01\x00\x01\xfc\x03\x03" + bytes(rng.randrange(256) for _ in range(200)),  # a TLS ClientHello
+        bytes(rng.randrange(256) for _ in range(300)),
+        b"\r\n\r\n\r\n",
+        b"",
+    ]
+    return cat
 
 
 def wedge_oracle(line, res):
